@@ -64,6 +64,9 @@ def run(ck):
     ck.rule("R4", "each back end's guest access path tests the page permission", floor=6)
     ck.rule("R5", "the two C dispatch loops perform the same abstract event sequence", floor=2)
     ck.rule("R6", "each operator handled by the LLVM back end reaches the LLVM instruction of its reference meaning", floor=20)
+    ck.rule("R8", "the stop set only the C dispatch loops consult is current: a stale one makes them chain through an address where the Python back end stops (rules shared with C23-R3)", floor=1)
+    from rules.c23 import stop_set_rules
+    stop_set_rules(ck, "R8")
     ck.rule("R7", "contradiction lints: a key tested in one table indexes that table; binary calls use distinct operands", floor=2)
 
     # ---------------------------------------------------------------- R1
